@@ -9,6 +9,7 @@ import (
 	"encoding/json"
 	"fmt"
 	"math"
+	"math/big"
 	"os"
 	"reflect"
 	"sort"
@@ -159,6 +160,16 @@ func NondetDecimal(label string, scale int) decimal.Decimal {
 	return decimal.RequireFromString(s).Shift(int32(-scale))
 }
 
+// NondetDecimalDigits is NondetDecimal with |mantissa| < 10^digits (the engine keeps the bound on the term).
+func NondetDecimalDigits(label string, scale, digits int) decimal.Decimal {
+	d := NondetDecimal(label, scale)
+	lim := new(big.Int).Exp(big.NewInt(10), big.NewInt(int64(digits)), nil)
+	if new(big.Int).Abs(d.Coefficient()).Cmp(lim) >= 0 {
+		panic(AssumeRejected{})
+	}
+	return d
+}
+
 // Tag records a concrete string in the draw sequence (no nondeterminism): known-finding predicates can
 // refer to it, e.g. fn == "convertsToQuantity", instead of to an index that shifts when a table grows.
 func Tag(label, value string) {
@@ -194,6 +205,10 @@ func SortStrings(s []string) { sort.Strings(s) }
 // SplitCalendar asks the engine to case-split narrow symbolic years/months and short day-number ranges inside the
 // calendar functions (piecewise-linear per month) instead of leaving them to the solver. Natively a no-op.
 func SplitCalendar() {}
+
+// ExactFloat asks the engine to relate decimal.InexactFloat64 exactly to the decimal (correctly rounded, one
+// fork per binade of the value) instead of returning an unrelated float. Natively a no-op.
+func ExactFloat() {}
 
 // IgnorePanics: run-time panics of the code under test are not obligations of this harness (they belong to
 // C01/C08); the path is constrained to the non-panicking executions instead.
